@@ -418,6 +418,18 @@ func Main(t *testing.T, h *Harness) {
 		determinismMain(t, h)
 	case "enumerate":
 		enumerateMain(t, h)
+	case "detdump":
+		// development aid: run every seed twice, traced, and dump both logs where they differ
+		seed0 := uint64(envInt("SIM_SEED0", 1))
+		for i := int64(0); i < envInt("SIM_COUNT", 50); i++ {
+			seed := seed0 + uint64(i)
+			a := Execute(t, h, simrt.NewTape(seed), true)
+			b := Execute(t, h, simrt.NewTape(seed), true)
+			if a.LogHash != b.LogHash {
+				os.WriteFile(fmt.Sprintf("%s.%d.a", os.Getenv("SIM_OUT"), seed), []byte(strings.Join(a.Log, "\n")), 0o644)
+				os.WriteFile(fmt.Sprintf("%s.%d.b", os.Getenv("SIM_OUT"), seed), []byte(strings.Join(b.Log, "\n")), 0o644)
+			}
+		}
 	default:
 		batchMain(t, h)
 	}
